@@ -105,11 +105,16 @@ func genFunction(prog *ssa.Program, cs *Contracts, fn *ssa.Function, fc *FuncCon
 		if sp, ok := v.(StructPtr); ok && !contains(fc.Nullable, names[i]) {
 			c.emit(fmt.Sprintf("(assert (> %s 0))", sp.Ref.S))
 		}
-		if sv, ok := v.(SliceV); ok {
-			if c.paramIDs == nil {
-				c.paramIDs = map[string]bool{}
-			}
-			c.paramIDs[sv.ID.S] = true
+		if c.paramIDs == nil {
+			c.paramIDs = map[string]bool{}
+		}
+		switch pv := v.(type) {
+		case SliceV:
+			c.paramIDs[pv.ID.S] = true
+		case StructPtr:
+			c.paramIDs[pv.Ref.S] = true // below the entry allocation counter (asserted by freshVal)
+		case IfaceV:
+			c.paramIDs[pv.Ref.S] = true
 		}
 		if iv, ok := v.(IfaceV); ok && isNDIface(p.Type()) && !contains(fc.Nullable, names[i]) {
 			c.emit(fmt.Sprintf("(assert (> %s 0))", iv.Ref.S))
@@ -822,8 +827,20 @@ func (c *Ctx) inductFormula(ind *Induct, mode string) T {
 		// instantiate on the spec-function applications that mention the induction variable
 		var pats []string
 		seen := map[string]bool{}
+		bound := map[string]bool{}
+		for _, b := range binders {
+			bound[strings.Fields(strings.Trim(b, "()"))[0]] = true
+		}
+		onlyBound := func(t string) bool {
+			for _, v := range qvarRe.FindAllString(t, -1) {
+				if !bound[v] {
+					return false
+				}
+			}
+			return true
+		}
 		for _, t := range specApps(body.S) {
-			if strings.Contains(t, n.S) && !seen[t] && !strings.Contains(t, "q_k_") {
+			if strings.Contains(t, n.S) && !seen[t] && onlyBound(t) {
 				seen[t] = true
 				pats = append(pats, t)
 			}
@@ -848,6 +865,8 @@ func (c *Ctx) inductFormula(ind *Induct, mode string) T {
 	}
 	return T{fmt.Sprintf("(forall (%s) %s)", strings.Join(binders, " "), f.S), SBool}
 }
+
+var qvarRe = regexp.MustCompile(`q_[A-Za-z0-9]+_[0-9]+`)
 
 // genInducts: base and step obligations of the induction lemmas.
 // usedLemmas: labels of lemmas that the functions of the running check rely on
